@@ -265,7 +265,7 @@ SCENARIOS = {"dm": make}
 
 
 def run(ctx: Ctx) -> None:
-    bound = 3 if ctx.thorough else 2
+    bound = 4 if ctx.thorough else 2
     ctx.rule = (
         f"real UDP/TCPDeviceManagementConnection (connected through connect()) against a simulated server: programs read P1 then write P2 / read P1 twice / two reads concurrently, optional "
         f"user disconnect() while a request waits; per DeviceConfigurationRequest the server acknowledges with {ACKS} (UDP) and answers with {ANSWERS}; EVERY schedule with <= {bound} deviations. "
